@@ -23,6 +23,7 @@ package main
 
 import (
 	"bytes"
+	"context"
 	"encoding/json"
 	"fmt"
 	"os"
@@ -391,12 +392,20 @@ func runC15(r *Run, rng *Rng, replay string) {
 			if jb.only >= 0 {
 				args = append(args, "-only", strconv.Itoa(jb.only), "-n", strconv.Itoa(jb.n))
 			}
-			cmd := exec.Command(bin, args...)
+			// the stress process has its own watchdog; the deadline here only makes sure it never
+			// outlives the check
+			limit := 12 * time.Minute
+			if r.Tier == "thorough" {
+				limit = 100 * time.Minute
+			}
+			ctx, cancel := context.WithTimeout(context.Background(), limit)
+			cmd := exec.CommandContext(ctx, bin, args...)
 			cmd.Env = append(os.Environ(), "GORACE=halt_on_error=0 history_size=5")
 			var stderr bytes.Buffer
 			cmd.Stderr = &stderr
 			t0 := time.Now()
 			err := cmd.Run()
+			cancel()
 			_ = os.WriteFile(filepath.Join(r.Dir, fmt.Sprintf("c15race-%d-%d.stderr", jb.only, rep)), stderr.Bytes(), 0o644)
 			// exit status 66 = the race detector reported something; anything else abnormal is a crash
 			if err != nil {
